@@ -290,8 +290,10 @@ class _InlineFunction(XPathFunction):
         if context is None:
             raise self.missing_context()
         elif self.label.endswith('function'):
-            self.variables = context.variables.copy()  # like a closure
-            return self
+            # each evaluation yields a new function item with its own closure
+            func = copy(self)
+            func.variables = context.variables.copy()
+            return func
 
         # A function test
         if not isinstance(context.item, XPathFunction):
